@@ -36,6 +36,8 @@ def pspec_of(mod_node: ast.expr, attr_node: ast.expr) -> Tuple[str, str, bool]:
     return (dotted(mod_node), attr_node.value, False)
 
 
+SAFE_PROLOGUE_CALLS = ("begin_patch", "patch", "ArchiveMetaHook", "StringIO", "list", "FakeModule", "FakeNumpyModule",
+                       "os.path.dirname", "os.path.abspath", "sys.meta_path.append")
 COPY_CALLS = ("list", "tuple", "dict", "set", "copy.copy", "copy.deepcopy")
 
 
@@ -301,6 +303,44 @@ def read_source() -> Dict[str, object]:
     # saved_sys_path = list(sys.path) immediately before `with patches:`
     idx = g.body.index(w2)
     out["path_saved_before_with"] = idx > 0 and ast.unparse(g.body[idx - 1]) == "saved_sys_path = list(sys.path)"
+    # Everything between the first thing the function installs (fake modules, begin_patch, the hook) and the
+    # `with patches:` whose try/finally undoes it: a statement that can raise there leaves the installation behind.
+    # Calls that cannot raise in practice are whitelisted; any other call is reported.
+    first = None
+    for i, st in enumerate(g.body[:idx]):
+        txt = ast.unparse(st)
+        if "sys.modules[" in txt and "] = " in txt or "begin_patch(" in txt or "sys.meta_path.append(" in txt:
+            first = i
+            break
+    if first is None:
+        raise TranslateError("no installing statement found before `with patches:`")
+    risky: List[str] = []
+    for st in g.body[first:idx]:
+        if isinstance(st, (ast.FunctionDef, ast.AsyncFunctionDef, ast.ClassDef, ast.Import, ast.ImportFrom)):
+            continue
+        if not isinstance(st, (ast.Assign, ast.AnnAssign, ast.If, ast.Try, ast.Expr)):
+            risky.append(type(st).__name__)
+            continue
+        if isinstance(st, ast.Try) and not all(
+                h.type is not None and ast.unparse(h.type) == "ImportError" for h in st.handlers):
+            risky.append("try with a handler other than ImportError")
+        todo = [st]
+        while todo:
+            n = todo.pop()
+            if isinstance(n, (ast.FunctionDef, ast.AsyncFunctionDef, ast.ClassDef, ast.Lambda)) and n is not st:
+                continue
+            if isinstance(n, ast.Call):
+                nm = call_name(n) or ast.unparse(n.func)
+                if nm not in SAFE_PROLOGUE_CALLS:
+                    risky.append(nm)
+            todo.extend(ast.iter_child_nodes(n))
+    out["unguarded_calls"] = sorted(set(risky))
+    # the read of the script that is exec'd sits inside the try
+    reads = [n for n in own_nodes(g) if isinstance(n, ast.Call) and call_name(n) == "extractor.contents"]
+    in_try = [n for s_ in tr.body for n in ast.walk(s_) if isinstance(n, ast.Call) and call_name(n) == "extractor.contents"]
+    if len(reads) != 1:
+        raise TranslateError("expected exactly one read of the setup script (extractor.contents) in _parse_setup_py")
+    out["read_in_try"] = len(in_try) == 1
     # numpy / Cython fakes
     src_g = ast.unparse(g)
     out["numpy_fakes"] = [k for k in ("numpy", "numpy.distutils", "numpy.distutils.core", "numpy.distutils.misc_util",
@@ -331,6 +371,16 @@ def read_pyproject() -> Dict[str, object]:
                             and ast.unparse(s.value.args[0]) == "old_cwd" for s in n.finalbody)
             ok = body_chdir and fin_chdir
     out["pyproject_chdir_back_in_finally"] = ok
+    # `old_cwd = os.getcwd()` is a statement of the body of `with LOCK:` (the cwd is read while holding the lock)
+    saves = [n for n in ast.walk(f) if isinstance(n, ast.Assign) and ast.unparse(n) == "old_cwd = os.getcwd()"]
+    locks = [n for n in ast.walk(f) if isinstance(n, ast.With) and len(n.items) == 1 and ast.unparse(n.items[0].context_expr) == "LOCK"]
+    if len(saves) != 1 or len(locks) != 1:
+        raise TranslateError("expected exactly one `old_cwd = os.getcwd()` and one `with LOCK:` in _parse_from_prepared_metadata")
+    if not any(w is n for n in ast.walk(locks[0])):
+        raise TranslateError("the patched backend call is not inside `with LOCK:`")
+    out["cwd_saved_inside_lock"] = any(saves[0] is n for n in locks[0].body)
+    if not out["cwd_saved_inside_lock"] and any(saves[0] is n for n in ast.walk(locks[0])):
+        raise TranslateError("old_cwd is saved inside `with LOCK:` but not as a direct statement of its body")
     n_patch = sum(1 for n in ast.walk(mod) if is_call_to(n, "patch") or is_call_to(n, "begin_patch"))
     if n_patch != 1:
         raise TranslateError("pyproject.py has patch/begin_patch calls the reader does not know")
@@ -452,12 +502,15 @@ def gen_c13_consts() -> str:
     body += "Definition inner_patched : list pspec :=\n  " + T.coq_list([pspec(x, k) for x, k in zip(s["inner"], s["inner_new"])]).replace("; ", ";\n   ") + ".\n"
     body += "Definition pyproject_patched : list pspec :=\n  " + T.coq_list([pspec(x, k) for x, k in zip(p["pyproject"], p["pyproject_new"])]) + ".\n"
     body += "Definition finally_steps : list (fstep * bool) :=\n  " + T.coq_list([f"({t}, {b(f)})" for t, f in s["steps"]]) + ".\n"
+    body += "Definition unguarded_calls : list string := " + T.coq_list([T.coq_str(x) for x in s["unguarded_calls"]]) + ".\n"
     body += "Definition numpy_fakes : list string := " + T.coq_list([T.coq_str(x) for x in s["numpy_fakes"]]) + ".\n"
     body += "Definition cython_fakes : list string := " + T.coq_list([T.coq_str(x) for x in s["cython_fakes"]]) + ".\n"
     for k in ("outer_with_covers_parse", "exec_in_try", "path_insert_in_try", "catches_sysexit",
-              "meta_append_before_with", "captures_warnings", "capture_started_recorded", "path_saved_before_with"):
+              "meta_append_before_with", "captures_warnings", "capture_started_recorded", "path_saved_before_with",
+              "read_in_try"):
         body += f"Definition {k} : bool := {b(s[k])}.\n"
     body += f"Definition pyproject_chdir_back_in_finally : bool := {b(p['pyproject_chdir_back_in_finally'])}.\n"
+    body += f"Definition cwd_saved_inside_lock : bool := {b(p['cwd_saved_inside_lock'])}.\n"
     for k in ("patch_loop_covers_all_args", "patch_yield_in_try", "patch_restores_reversed",
               "end_patch_missing_deletes_if_present", "begin_patch_absent_is_missing", "missing_is_private_sentinel",
               "begin_patch_unloaded_no_token"):
